@@ -30,7 +30,7 @@ LINK_EXCL = """[ exclusions ]
 @condition("C14.exclusions",
            anchors=["polyply.src.map_to_molecule:tag_exclusions", "polyply.src.apply_links:expand_excl", "polyply.src.graph_utils:neighborhood",
                     "polyply.src.map_to_molecule:MapToMolecule.run_molecule", "polyply.src.apply_links:ApplyLinks.run_molecule"],
-           rejects=(), selector_only=True, must_cover=["mixed", "uniform", "explicit block exclusion", "link exclusion", "three distances", "ring block", "explicit link", "unused block with another distance", "exclusion line with several partners"],
+           rejects=(), selector_only=True, must_cover=["mixed", "uniform", "explicit block exclusion", "link exclusion", "three distances", "ring block", "explicit link", "unused block with another distance", "exclusion line with several partners", "explicit constraint link", "vetoed alternative link"],
            stubs=["apply_links.tqdm -> plain iteration"],
            outside=["residue graphs / blocks larger than the bound", "exclusion distances above 4"],
            bounds={"quick": dict(nmax=3, excl=[0, 1, 3], sizes=[3, "ring"]), "thorough": dict(nmax=4, excl=[0, 2, 4], sizes=[3, "ring"])},
@@ -54,7 +54,7 @@ def exclusions(sx, B):
                   simple_block(nm, size[nm], nrexcl=nrexcl[nm], ifdef=False, extra_excl=(blk_excl if nm == "A" else False))) for nm in used}
     if any(v == "ring" for v in size.values()):
         sx.cover("ring block")
-    explicit = sx.sel("explicit_link", [False, True])
+    explicit = sx.sel("explicit_link", [False, True, "constraint"])
     texts = [("ff", block_text_ff(specs[nm])) for nm in used]
     if not blk_excl and not link_excl and sx.sel("unused_block_in_library", [False, True]):
         # a block that is loaded with the force field but not part of the molecule, with another exclusion distance
@@ -66,11 +66,25 @@ def exclusions(sx, B):
             link_text += LINK.format(last=specs[la].atoms[-1][0], first=specs[fi].atoms[0][0])
             if link_excl:
                 link_text += LINK_EXCL.format(a=specs[la].atoms[0][0], b=specs[fi].atoms[-1][0])
+    if not blk_excl and not link_excl and not explicit and sx.sel("vetoed_alternative_link", [False, True]):
+        # an alternative link between the last atoms of neighbouring residues that is always vetoed by its non-edge (the regular
+        # link has made that bond already): it must leave no trace - in particular no path for the exclusion distances
+        for la in used:
+            for fi in used:
+                if len(specs[fi].atoms) > 1:
+                    link_text += ('[ link ]\nresname "A|B|C"\n[ bonds ]\n%s +%s 1 0.55 5500\n[ non-edges ]\n%s +%s\n'
+                                  % (specs[la].atoms[-1][0], specs[fi].atoms[-1][0], specs[la].atoms[-1][0], specs[fi].atoms[0][0]))
+        sx.cover("vetoed alternative link")
     texts.append(("ff", link_text))
     natoms_total = sum(len(specs[nm].atoms) for nm in names)
     if explicit and natoms_total >= 4:
         # a cross-link by atom number between the first and the last atom of the molecule
-        texts.append(("ff", "[ link ]\n[ molmeta ]\nby_atom_id true\n[ bonds ]\n1 %d 1 0.5 500\n" % natoms_total))
+        if explicit == "constraint":
+            # the cross-link may as well be a constraint: it counts as a bond for the exclusion distances (as for GROMACS)
+            texts.append(("ff", "[ link ]\n[ molmeta ]\nby_atom_id true\n[ constraints ]\n1 %d 1 0.5\n" % natoms_total))
+            sx.cover("explicit constraint link")
+        else:
+            texts.append(("ff", "[ link ]\n[ molmeta ]\nby_atom_id true\n[ bonds ]\n1 %d 1 0.5 500\n" % natoms_total))
         sx.cover("explicit link")
     ff = parse_ff(texts)
     meta = residue_graph(n, GRAPHS[n][shape], names, [i + 1 for i in range(n)], ff=ff)
@@ -85,7 +99,7 @@ def exclusions(sx, B):
     # bond graph from the bonded interactions that make edges (bonds)
     g = nx.Graph()
     g.add_nodes_from(mol.nodes)
-    for inter in mol.interactions.get("bonds", []):
+    for inter in list(mol.interactions.get("bonds", [])) + list(mol.interactions.get("constraints", [])):
         g.add_edge(*inter.atoms)
     if explicit and natoms_total >= 4:
         sx.claim(g.has_edge(0, natoms_total - 1), "the explicit link's bond is part of the molecule")
